@@ -1,10 +1,14 @@
 (** C19 -- Space-charge kicks change momenta only and scale with charge and length.   Level: PARTIAL.
-    Proved here (model SpaceCharge/Cic.v, proofs SpaceCharge/CicProofs.v): the algebraic clauses, for every grid
-    geometry, particle list, charge, survival value and length, with the field solve (Hockney FFT convolution with
-    the integrated Green function, central differences) taken as an ARBITRARY LINEAR operator on grids.
-    Not proved (tested on the implementation only): the numerical accuracy of that operator (uniform sphere),
-    the outward push, the first-order behaviour of delta, and that the grid geometry (sigma-based) is itself
-    invariant under the operations below.
+    Proved here, part 1 (model SpaceCharge/Cic.v, proofs SpaceCharge/CicProofs.v): the algebraic clauses, for every grid
+    geometry, particle list, charge, survival value and length, with the field solve taken as an ARBITRARY LINEAR operator on grids.
+    Part 2 (model SpaceCharge/Hockney.v, proofs SpaceCharge/HockneyProofs.v; appended below): the STRUCTURE of the field solve
+    -- zero padding to the doubled grid, the mirrored layout of the doubled Green array, cyclic convolution, crop, central
+    differences with zero boundary planes, -1/gamma^2 -- for every grid size, every Green data G and every density: the cropped
+    cyclic convolution is the open-boundary sum; the solve is linear, so the kick theorems of part 1 hold for the concrete solve;
+    mirror symmetry; Newton's third law on the grid.
+    Not proved (tested on the implementation only): that torch's irfftn(rfftn a * rfftn b) is the cyclic convolution, the VALUES of
+    the integrated Green function (data here), the numerical accuracy (uniform sphere), the outward push for general bunches, the
+    first-order behaviour of delta, and that the grid geometry (sigma-based) is itself invariant under the operations below.
     Only property theorems live here: each is closed by [exact] and followed by [Print Assumptions]. *)
 From Coq Require Import List Bool ZArith QArith Permutation.
 From Cheetah Require Import SpaceCharge.Cic SpaceCharge.CicProofs.
@@ -182,3 +186,175 @@ Print Assumptions C19_px_change.
 Print Assumptions C19_zero_charge_px.
 Print Assumptions C19_solve_exists.
 Print Assumptions C19_nonvacuous.
+
+(* ======================================================================================================================
+   Part 2: the Hockney field solve (zero padding, doubled Green array, cyclic convolution, crop, central differences)
+   ====================================================================================================================== *)
+From Coq Require Import Arith.
+From Cheetah Require Import SpaceCharge.Hockney SpaceCharge.HockneyProofs.
+
+(* where every entry of the doubled Green array comes from: index n of an axis is never written (0), indices below n hold G,
+   indices above n the mirrored copy G[2n - m] *)
+Theorem C19_green_layout : forall nx ny nz (G : grid) a b c,
+  green3 (nx, ny, nz) G a b c =
+  if ((a =? nx) || (b =? ny) || (c =? nz))%nat then 0
+  else G (if (a <? nx)%nat then a else (2 * nx - a)%nat) (if (b <? ny)%nat then b else (2 * ny - b)%nat)
+         (if (c <? nz)%nat then c else (2 * nz - c)%nat).
+Proof. exact green3_layout. Qed.
+
+(* one axis: the cyclic convolution (indices modulo 2n) of the zero-padded density with the doubled Green array, read at a
+   physical index m < n, is the aperiodic sum over the physical grid with G(|m - p|) *)
+Theorem C19_hockney1_is_open_convolution : forall n (G r : nat -> Q) m, (m < n)%nat ->
+  sumN (2 * n) (fun p => pad1 n r p * green1 n G ((m + 2 * n - p) mod (2 * n))%nat) == sumN n (fun p => r p * G (dist m p)).
+Proof. exact hockney1_is_open_convolution. Qed.
+
+(* three axes, every grid size, every G, every density: the cropped cyclic convolution on the doubled grid is the open-boundary
+   sum over the physical grid -- no periodic image contributes.  (dist a b = |a - b|) *)
+Theorem C19_hockney_is_open_convolution : forall nx ny nz k0 (G r : grid) i j k, (i < nx)%nat -> (j < ny)%nat -> (k < nz)%nat ->
+  k0 * sum3 (2 * nx) (2 * ny) (2 * nz) (fun p q s =>
+         pad3 (nx, ny, nz) r p q s *
+         green3 (nx, ny, nz) G ((i + 2 * nx - p) mod (2 * nx))%nat ((j + 2 * ny - q) mod (2 * ny))%nat ((k + 2 * nz - s) mod (2 * nz))%nat)
+  == k0 * sum3 nx ny nz (fun p q s => r p q s * G (dist i p) (dist j q) (dist k s)).
+Proof. exact hockney_is_open_convolution. Qed.
+
+(* cells without charge are not sources: the potential is the sum over any set of cells that contains the charged ones *)
+Theorem C19_hockney_zero_cells_not_sources : forall nx ny nz (G r : grid) (keep : nat -> nat -> nat -> bool) i j k,
+  (forall p q s, keep p q s = false -> r p q s == 0) ->
+  open3 (nx, ny, nz) G r i j k ==
+  sum3 nx ny nz (fun p q s => if keep p q s then r p q s * G (dist i p) (dist j q) (dist k s) else 0).
+Proof. exact open3_support. Qed.
+
+(* the whole solve density -> potential -> force per charge (hsolve: pad, convolve, crop, central differences, -1/gamma^2) respects
+   equality of densities (it reads existing grid points only), is homogeneous and additive, and equals the same stencil applied to
+   the open-boundary sum *)
+Theorem C19_hockney_solve_linear : forall sh cell k0 ig2 (G : grid) comp,
+  (forall r r', (forall k, valid sh k = true -> r k == r' k) ->
+     forall k, hsolve sh cell k0 ig2 G comp r k == hsolve sh cell k0 ig2 G comp r' k) /\
+  (forall a r k, hsolve sh cell k0 ig2 G comp (fun i => a * r i) k == a * hsolve sh cell k0 ig2 G comp r k) /\
+  (forall r r' k, hsolve sh cell k0 ig2 G comp (fun i => r i + r' i) k ==
+                  hsolve sh cell k0 ig2 G comp r k + hsolve sh cell k0 ig2 G comp r' k) /\
+  (forall r k, hsolve sh cell k0 ig2 G comp r k == hsolve_open sh cell k0 ig2 G comp r k).
+Proof.
+  exact (fun sh cell k0 ig2 G comp =>
+           conj (hsolve_ext_valid sh cell k0 ig2 G comp)
+          (conj (hsolve_scale sh cell k0 ig2 G comp)
+          (conj (hsolve_add sh cell k0 ig2 G comp) (hsolve_open_eq sh cell k0 ig2 G comp)))).
+Qed.
+
+(* the code's "0 boundary conditions": no force on the two boundary planes of the differentiated axis *)
+Theorem C19_field_boundary_zero : forall nx ny nz cell ig2 phi i j k,
+  (i = 0%nat \/ (nx <= i + 1)%nat -> field (nx, ny, nz) cell ig2 0 phi i j k == 0) /\
+  (j = 0%nat \/ (ny <= j + 1)%nat -> field (nx, ny, nz) cell ig2 1 phi i j k == 0) /\
+  (k = 0%nat \/ (nz <= k + 1)%nat -> field (nx, ny, nz) cell ig2 2 phi i j k == 0).
+Proof. exact field_boundary_zero. Qed.
+
+(* ---------------- the kick theorems of part 1, now for the CONCRETE solve: no hypothesis on the field solve is left.
+   k0 = 1/(4 pi eps0), ig2 = 1/gamma^2 and the integrated-Green-function values G are arbitrary *)
+Theorem C19_hockney_kick_perm : forall k0 ig2 (G : grid) g e dt ps ps' comp p, Permutation ps ps' ->
+  dP (hsolve (g_shape g) (g_cell g) k0 ig2 G) g e dt ps' comp p == dP (hsolve (g_shape g) (g_cell g) k0 ig2 G) g e dt ps comp p.
+Proof. exact hockney_kick_perm. Qed.
+
+Theorem C19_hockney_kick_linear_in_charge : forall k0 ig2 (G : grid) g e dt a ps comp p,
+  dP (hsolve (g_shape g) (g_cell g) k0 ig2 G) g e dt (map (scale_q a) ps) comp (scale_q a p) ==
+  a * dP (hsolve (g_shape g) (g_cell g) k0 ig2 G) g e dt ps comp p.
+Proof. exact hockney_kick_linear_in_charge. Qed.
+
+Theorem C19_hockney_zero_charge_no_kick : forall k0 ig2 (G : grid) g e dt ps comp p, (forall x, In x ps -> s_q x == 0) ->
+  dP (hsolve (g_shape g) (g_cell g) k0 ig2 G) g e dt ps comp p == 0.
+Proof. exact hockney_zero_charge_no_kick. Qed.
+
+Theorem C19_hockney_lost_particles_not_sources : forall k0 ig2 (G : grid) g e dt ps comp p,
+  dP (hsolve (g_shape g) (g_cell g) k0 ig2 G) g e dt ps comp p ==
+  dP (hsolve (g_shape g) (g_cell g) k0 ig2 G) g e dt (filter (fun p => negb (Qeq_bool (s_s p) 0)) ps) comp p.
+Proof. exact hockney_lost_particles_not_sources. Qed.
+
+Theorem C19_hockney_off_grid_bunch_no_kick : forall k0 ig2 (G : grid) g e dt ps comp p,
+  (forall x, In x ps -> forall c, In c (corners (cell_of (nrm g x))) -> valid (g_shape g) c = false) ->
+  dP (hsolve (g_shape g) (g_cell g) k0 ig2 G) g e dt ps comp p == 0.
+Proof. exact hockney_off_grid_bunch_no_kick. Qed.
+
+(* superposition: the kick a particle receives from two sub-bunches is the sum of the kicks from each *)
+Theorem C19_hockney_kick_superposition : forall k0 ig2 (G : grid) g e dt ps1 ps2 comp p,
+  dP (hsolve (g_shape g) (g_cell g) k0 ig2 G) g e dt (ps1 ++ ps2) comp p ==
+  dP (hsolve (g_shape g) (g_cell g) k0 ig2 G) g e dt ps1 comp p + dP (hsolve (g_shape g) (g_cell g) k0 ig2 G) g e dt ps2 comp p.
+Proof. exact hockney_kick_superposition. Qed.
+
+(* ---------------- symmetry: "pushes particles away from the bunch centre" at model level.  A density that is mirror symmetric
+   about the centre plane of the x axis gives a potential with that symmetry, an x-force that is ODD under the mirror and y-, tau-
+   forces that are even; on the centre plane of a grid with an odd number of points the x-force is exactly 0 *)
+Theorem C19_hockney_potential_mirror_x : forall nx ny nz k0 (G r : grid),
+  (forall p q s, (p < nx)%nat -> (q < ny)%nat -> (s < nz)%nat -> r (nx - 1 - p)%nat q s == r p q s) ->
+  forall i j k, (i < nx)%nat -> (j < ny)%nat -> (k < nz)%nat ->
+  potential (nx, ny, nz) k0 G r (nx - 1 - i)%nat j k == potential (nx, ny, nz) k0 G r i j k.
+Proof. exact hockney_potential_mirror_x. Qed.
+
+Theorem C19_hockney_potential_mirror_y : forall nx ny nz k0 (G r : grid),
+  (forall p q s, (p < nx)%nat -> (q < ny)%nat -> (s < nz)%nat -> r p (ny - 1 - q)%nat s == r p q s) ->
+  forall i j k, (i < nx)%nat -> (j < ny)%nat -> (k < nz)%nat ->
+  potential (nx, ny, nz) k0 G r i (ny - 1 - j)%nat k == potential (nx, ny, nz) k0 G r i j k.
+Proof. exact hockney_potential_mirror_y. Qed.
+
+Theorem C19_hockney_potential_mirror_tau : forall nx ny nz k0 (G r : grid),
+  (forall p q s, (p < nx)%nat -> (q < ny)%nat -> (s < nz)%nat -> r p q (nz - 1 - s)%nat == r p q s) ->
+  forall i j k, (i < nx)%nat -> (j < ny)%nat -> (k < nz)%nat ->
+  potential (nx, ny, nz) k0 G r i j (nz - 1 - k)%nat == potential (nx, ny, nz) k0 G r i j k.
+Proof. exact hockney_potential_mirror_z. Qed.
+
+Theorem C19_hockney_force_mirror_x : forall nx ny nz cell k0 ig2 (G r : grid),
+  (forall p q s, (p < nx)%nat -> (q < ny)%nat -> (s < nz)%nat -> r (nx - 1 - p)%nat q s == r p q s) ->
+  forall i j k, (i < nx)%nat -> (j < ny)%nat -> (k < nz)%nat ->
+  let F := fun comp => field (nx, ny, nz) cell ig2 comp (potential (nx, ny, nz) k0 G r) in
+  F 0%nat (nx - 1 - i)%nat j k == - F 0%nat i j k /\ F 1%nat (nx - 1 - i)%nat j k == F 1%nat i j k /\
+  F 2%nat (nx - 1 - i)%nat j k == F 2%nat i j k.
+Proof. exact hockney_force_mirror_x. Qed.
+
+Theorem C19_hockney_force_centre_plane_x : forall c ny nz cell k0 ig2 (G r : grid),
+  let nx := (2 * c + 1)%nat in
+  (forall p q s, (p < nx)%nat -> (q < ny)%nat -> (s < nz)%nat -> r (nx - 1 - p)%nat q s == r p q s) ->
+  forall j k, (j < ny)%nat -> (k < nz)%nat ->
+  field (nx, ny, nz) cell ig2 0 (potential (nx, ny, nz) k0 G r) c j k == 0.
+Proof. exact hockney_force_centre_plane_x. Qed.
+
+(* ---------------- Newton's third law on the grid ("near-vanishing net self-force"): if the density leaves the two boundary planes
+   of the x axis empty, the total x-force of the charge distribution on itself, sum over cells of rho * F_x, is EXACTLY zero --
+   every grid, every Green data, every density ... *)
+Theorem C19_hockney_third_law_x : forall nx ny nz cell k0 ig2 (G r : grid),
+  (forall q s, r 0%nat q s == 0) -> (forall q s, r (nx - 1)%nat q s == 0) ->
+  sum3 nx ny nz (fun i j k => r i j k * field (nx, ny, nz) cell ig2 0 (potential (nx, ny, nz) k0 G r) i j k) == 0.
+Proof. exact hockney_third_law_x. Qed.
+
+(* ... and the hypothesis is needed: the code zeroes the force on the boundary planes, so a charge sitting there pushes without being
+   pushed back (two unit charges at i = 0, 1 of a 3x1x1 grid, G(d) = 1/(1+d)) *)
+Theorem C19_third_law_boundary_refuted :
+  let G : grid := fun a _ _ => 1 / inject_Z (Z.of_nat (1 + a)) in
+  let r : grid := fun a _ _ => if (a <? 2)%nat then 1 else 0 in
+  ~ sum3 3 1 1 (fun i j k => r i j k * field (3, 1, 1)%nat (1, 1, 1) 1 0 (potential (3, 1, 1)%nat 1 G r) i j k) == 0.
+Proof. exact third_law_boundary_refuted. Qed.
+
+(* non-vacuity: the model's pipeline on a 2x1x1 grid with G(0) = 5, G(1) = 3 and density (1, 2): potential (5 + 6, 3 + 10) *)
+Example C19_hockney_nonvacuous :
+  let G : grid := fun a _ _ => if (a =? 0)%nat then 5 else 3 in
+  let r : grid := fun a _ _ => if (a =? 0)%nat then 1 else 2 in
+  Qred (potential (2, 1, 1)%nat 1 G r 0%nat 0%nat 0%nat) = 11 /\ Qred (potential (2, 1, 1)%nat 1 G r 1%nat 0%nat 0%nat) = 13.
+Proof. vm_compute. split; reflexivity. Qed.
+
+Print Assumptions C19_green_layout.
+Print Assumptions C19_hockney1_is_open_convolution.
+Print Assumptions C19_hockney_is_open_convolution.
+Print Assumptions C19_hockney_zero_cells_not_sources.
+Print Assumptions C19_hockney_solve_linear.
+Print Assumptions C19_field_boundary_zero.
+Print Assumptions C19_hockney_kick_perm.
+Print Assumptions C19_hockney_kick_linear_in_charge.
+Print Assumptions C19_hockney_zero_charge_no_kick.
+Print Assumptions C19_hockney_lost_particles_not_sources.
+Print Assumptions C19_hockney_off_grid_bunch_no_kick.
+Print Assumptions C19_hockney_kick_superposition.
+Print Assumptions C19_hockney_potential_mirror_x.
+Print Assumptions C19_hockney_potential_mirror_y.
+Print Assumptions C19_hockney_potential_mirror_tau.
+Print Assumptions C19_hockney_force_mirror_x.
+Print Assumptions C19_hockney_force_centre_plane_x.
+Print Assumptions C19_hockney_third_law_x.
+Print Assumptions C19_third_law_boundary_refuted.
+Print Assumptions C19_hockney_nonvacuous.
